@@ -75,6 +75,17 @@ func Fields(typesMap TypesMap, typ *types.Struct, external bool) *Named {
 			}
 		}
 	}
+	// a blank field cannot be selected (and == ignores it as well)
+	named := n.Fields[:0]
+	reflect := false
+	for _, f := range n.Fields {
+		if f.name == "_" {
+			continue
+		}
+		named = append(named, f)
+		reflect = reflect || (f.Private() && external)
+	}
+	n.Fields, n.Reflect = named, reflect
 	return n
 }
 
